@@ -114,7 +114,8 @@ def instances(tier, seed):
         if o["name"] not in seen:
             seen.add(o["name"])
             uniq.append(o)
-    for k in ("nested", "bytewise", "bytewise-stream", "greedy-tail", "greedy-tail-3", "array-stream", "nonmultiple", "empty-island", "empty-island-stream", "empty-bitstruct"):
+    for k in ("nested", "bytewise", "bytewise-stream", "greedy-tail", "greedy-tail-3", "array-stream", "nonmultiple", "empty-island", "empty-island-stream", "empty-bitstruct",
+              "padded-stream", "aligned-stream", "padded-array-stream", "bytewise-dynamic"):
         uniq.append(dict(name="special %s" % k, params=dict(kind=k)))
     return uniq
 
@@ -284,6 +285,50 @@ def _special(ctx, C, p):
         v = r.value
         ctx.check("fields around a zero-byte island are the slices of the region", api.and_terms([ctx.eq(v.a, data[0] // 16), ctx.eq(v.b, data[0] % 16), ctx.eq(v.c, data[1]), ctx.eq(v.z, b"")]))
         ctx.check("build inverts parse", ctx.eq(d.build(v, **kw), data))
+        return "ok"
+    if k in ("padded-stream", "aligned-stream", "padded-array-stream"):
+        # groups padded / aligned to a number of BITS inside a streaming region; the same layout with constant widths takes the
+        # pre-read implementation; both must produce the layout written down here with plain arithmetic
+        w = 3
+        if k == "padded-stream":
+            dyn = "BitStruct('hdr'/Padded(16, Struct('n'/Octet, 'v'/BitsInteger(this.n))), 't'/BitsInteger(this.hdr.n + 5))"
+            sta = "BitStruct('hdr'/Padded(16, Struct('n'/Octet, 'v'/BitsInteger(3))), 't'/BitsInteger(8))"
+        elif k == "aligned-stream":
+            dyn = "BitStruct('hdr'/Aligned(16, Struct('n'/Octet, 'v'/BitsInteger(this.n))), 't'/BitsInteger(this.hdr.n + 5))"
+            sta = "BitStruct('hdr'/Aligned(16, Struct('n'/Octet, 'v'/BitsInteger(3))), 't'/BitsInteger(8))"
+        else:
+            dyn = "BitStruct('hdr'/Array(1, Padded(16, Struct('n'/Octet, 'v'/BitsInteger(this.n)))), 't'/BitsInteger(this.hdr[0].n + 5))"
+            sta = "BitStruct('hdr'/Array(1, Padded(16, Struct('n'/Octet, 'v'/BitsInteger(3)))), 't'/BitsInteger(8))"
+        ds, dd = mk(C, sta), mk(C, dyn)
+        ctx.check("the dynamic layout streams, the constant one is pre-read", type(dd).__name__ == "Restreamed" and type(ds).__name__ != "Restreamed")
+        v, t = ctx.int("v", 0, 7), ctx.int("t", 0, 255)
+        hdr = dict(n=w, v=v)
+        obj = dict(hdr=[hdr] if k == "padded-array-stream" else hdr, t=t)
+        G = ((w * 8 + v) * 32) * 256 + t            # n:8 | v:3 | pad:5 | t:8
+        exp = mkbytes([(G // 65536) % 256, (G // 256) % 256, G % 256])
+        for what, d in (("pre-read", ds), ("streaming", dd)):
+            rb = api.outcome(d.build, obj)
+            ctx.check("%s build succeeds" % what, rb.ok)
+            ctx.check("%s build: n(8) v(3) pad(5) t(8), MSB first" % what, ctx.eq(rb.value, exp))
+            data = ctx.bytes("data_" + what, 3)
+            ctx.assume(ctx.eq(data[0], w))
+            rp = api.outcome(d.parse, data)
+            ctx.check("%s parse succeeds" % what, rp.ok)
+            h = rp.value.hdr[0] if k == "padded-array-stream" else rp.value.hdr
+            ctx.check("%s parse: fields are the slices of the region" % what, api.and_terms([ctx.eq(h.v, data[1] // 32), ctx.eq(rp.value.t, data[2])]))
+        return "ok"
+    if k == "bytewise-dynamic":
+        # a byte-oriented island whose size comes from the context, starting in the middle of a byte, inside a streaming region
+        d = mk(C, "Bitwise(Struct('a'/BitsInteger(this._params.w), 'b'/Bytewise(Bytes(this._params.n)), 'c'/BitsInteger(4)))")
+        kw = dict(w=4, n=2)
+        data = ctx.bytes("data", 3)
+        G = (data[0] * 256 + data[1]) * 256 + data[2]
+        rp = api.outcome(d.parse, data, **kw)
+        ctx.check("parse accepts every region content", rp.ok)
+        v = rp.value
+        ctx.check("the island sees the re-assembled bytes", api.and_terms([ctx.eq(v.a, G // (2 ** 20)), ctx.eq(v.b, mkbytes([(G // 4096) % 256, (G // 16) % 256])), ctx.eq(v.c, G % 16)]))
+        rb = api.outcome(d.build, v, **kw)
+        ctx.check("build inverts parse (the island's bytes go after the bits written before it)", rb.ok and ctx.fork(ctx.eq(rb.value, data)))
         return "ok"
     if k == "empty-bitstruct":
         d = mk(C, "Struct('e'/BitStruct(), 'x'/Byte, 'f'/Bitwise(Array(0, Flag)), 'y'/Byte)")
